@@ -8,7 +8,7 @@ CONSTANTS
   SpellNames = {"s1", "s3"}
   EmitTrees = FALSE
   Alpha = "Q"
-  Contexts = {"plain", "andnot", "in2", "mid", "kw"}
+  Contexts = {"plain", "andnot", "in2", "mid", "kw", "sub"}
   MaxLen = 3
   TailLen = 0
   DeepReps = {}
